@@ -795,11 +795,15 @@ class MixedStabilizer(StateRepresentationBase):
         # sort first
         self.sort()
         other.sort()
-        for i in range(len(self._mixture)):
-            if not np.isclose(self._mixture[i][0], other.mixture[i][0]):
-                return False
+        # branches of equal probability have no canonical order: match each branch with one of the other mixture
+        # that has not been matched yet
+        remaining = list(other.mixture)
+        for p_i, t_i in self._mixture:
+            for k, (q_k, t_k) in enumerate(remaining):
+                if np.isclose(p_i, q_k) and t_i == t_k:
+                    del remaining[k]
+                    break
             else:
-                if self._mixture[i][1] != other.mixture[i][1]:
-                    return False
+                return False
 
         return True
